@@ -40,7 +40,11 @@ def parseOp (toks : List String) : Option Op :=
   | ["mkdir", p, perm] => do pure (.mkdir (← arg p) (← parseNat perm))
   | ["mkdirall", p, perm] => do pure (.mkdirAll (← arg p) (← parseNat perm))
   | ["open", p] => do pure (.open_ (← arg p))
-  | ["openfile", p, flag, perm] => do pure (.openFile (← arg p) (← parseNat flag) (← parseNat perm))
+  | ["openfile", p, flag, perm] => do
+    -- Go's `int` flag: a negative value is its 64-bit two's complement bit pattern
+    let f ← parseInt flag
+    let fn : Nat := if f < 0 then (2 ^ 64 + f).toNat else f.toNat
+    pure (.openFile (← arg p) fn (← parseNat perm))
   | ["remove", p] => do pure (.remove (← arg p))
   | ["removeall", p] => do pure (.removeAll (← arg p))
   | ["rename", a, b] => do pure (.rename (← arg a) (← arg b))
